@@ -356,7 +356,8 @@ theorem good_parseCallImmediate (m : Nat) : Good m parseCallImmediate := by
     rw [hh] at h
     simp only [safe_ok] at h
     cases v with
-    | some second => simp only; split <;> simp [h]
+    | some second => simp only; repeat' split
+                     all_goals simp [h]
     | none => simp
   | err => simp
   | fail => simp
@@ -608,5 +609,68 @@ theorem good_parseCommand {m : Nat} {pe : Parser PExpr} {pi : Parser Instruction
     | exact good_parseRawCapture hpe _ | apply good_parseReset | exact good_parseSetFrequency hpe
     | exact good_parseSetPhase hpe | exact good_parseSetScale hpe | exact good_parseShiftFrequency hpe
     | exact good_parseShiftPhase hpe | apply good_parseSwapPhases | apply good_parseStore
+
+/-- `parse_instruction`: with an expression parser safe below `m + 1` and a nested-instruction parser safe
+below `m`, the body is safe below `m + 1` — the nested parser only ever sees inputs from which the command
+token has already been removed. -/
+theorem good_parseInstructionBody {m : Nat} {pe : Parser PExpr} {pi : Parser Instruction}
+    (hpe : Good (m + 1) pe) (hpi : Good m pi) : Good (m + 1) (parseInstructionBody pe pi) := by
+  refine ⟨fun input0 hi0 => ?_⟩
+  unfold parseInstructionBody
+  have hs := (good_skipNewlinesAndComments (m + 1)).safe input0 hi0
+  cases hsk : skipNewlinesAndComments input0 with
+  | ok u input =>
+    rw [hsk] at hs
+    simp only [safe_ok] at hs
+    have hi : input.length < m + 1 := by omega
+    cases input with
+    | nil => simp
+    | cons t remainder =>
+      have hrem : remainder.length < m := by simp at hi; omega
+      have hpe' : Good m pe := hpe.mono (by omega)
+      cases t
+      case command c =>
+        simp only
+        have hc := (good_parseCommand hpe' hpi c).safe remainder hrem
+        rw [sliceTo_ok _ 1 (by simp)]
+        cases hcc : parseCommand pe pi c remainder with
+        | ok v r => rw [hcc] at hc; simp at hc hs ⊢; omega
+        | err => simp
+        | fail => simp
+        | crash w => rw [hcc] at hc; exact absurd hc (safe_crash w remainder)
+      case nonBlocking =>
+        simp only
+        rw [sliceFrom_ok _ 1 (by simp)]
+        cases remainder with
+        | nil => simp
+        | cons t2 remainder2 =>
+          have hrem2 : remainder2.length < m := by simp at hrem; omega
+          cases t2
+          case command c2 =>
+            cases c2 <;> simp only [safe_fail]
+            · exact ((good_parseCapture hpe' false).safe remainder2 hrem2).mono (by simp at hs ⊢; omega)
+            · exact ((good_parsePulse hpe' false).safe remainder2 hrem2).mono (by simp at hs ⊢; omega)
+            · exact ((good_parseRawCapture hpe' false).safe remainder2 hrem2).mono (by simp at hs ⊢; omega)
+          all_goals simp
+      case identifier s => exact ((good_parseGate hpe).safe _ hi).mono hs
+      case modifier mo => exact ((good_parseGate hpe).safe _ hi).mono hs
+      all_goals (simp only; rw [sliceTo_ok _ 1 (by simp)]; simp)
+  | err => simp
+  | fail => simp
+  | crash w => rw [hsk] at hs; exact absurd hs (safe_crash w input0)
+
+/-- the instruction knot: a depth budget larger than the number of tokens is never exhausted, and nothing
+else crashes -/
+theorem good_parseInstructionAt : ∀ d : Nat, Good d (parseInstructionAt d) := by
+  intro d
+  induction d with
+  | zero => exact ⟨fun i hi => by omega⟩
+  | succ d ih =>
+    show Good (d + 1) (parseInstructionBody (parseExpressionAt (d + 1)) (parseInstructionAt d))
+    exact good_parseInstructionBody (good_parseExpressionAt (d + 1)) ih
+
+theorem good_parseInstructionsAt (d : Nat) : Good d (parseInstructionsAt d) := by
+  have := good_parseInstructionAt d
+  unfold parseInstructionsAt; good
 
 end QV.C01
